@@ -80,6 +80,9 @@ def setup_repo_path():
 
 
 def main():
+    # run as `python -m vf.core.worker`: make `import vf.core.worker` resolve to this very module
+    # (one CpuBudget class, one signal handler)
+    sys.modules.setdefault("vf.core.worker", sys.modules["__main__"])
     modname = sys.argv[1]
     out = os.fdopen(os.dup(1), "w", buffering=1)
     os.dup2(2, 1)  # whatever the code under test prints must not corrupt the protocol
@@ -133,6 +136,8 @@ def main():
         res["wall"] = round(time.monotonic() - t0, 4)
         res["cpu"] = round(time.process_time() - c0, 4)
         res["seq"] = seq
+        if fatal:
+            res["_fatal"] = True
         try:
             payload = json.dumps(res)
         except (TypeError, ValueError) as e:
@@ -144,8 +149,6 @@ def main():
         gc.collect()
 
 
-if __name__ == "__main__":
-    main()
 
 
 import contextlib  # noqa: E402
@@ -166,3 +169,7 @@ def inner_budget(seconds):
             signal.setitimer(signal.ITIMER_PROF, max(0.05, outer_left - used))
         else:
             signal.setitimer(signal.ITIMER_PROF, 0)
+
+
+if __name__ == "__main__":
+    main()
